@@ -7,6 +7,7 @@ package gqlty
 import (
 	"context"
 	"errors"
+	"strings"
 	"sync"
 	"sync/atomic"
 
@@ -101,6 +102,30 @@ func boom(ctx context.Context, mode string) (int64, error) {
 
 type BoomArgs struct{ Mode string }
 
+// Row is the node type of the paginated field `rows`; Boom is the mode its sort and filter fields run in.
+type Row struct {
+	Id   int64
+	Rank int64
+	Name string
+	Boom string `graphql:"-"`
+}
+
+type RowsArgs struct{ Mode *string }
+
+func rowRank(ctx context.Context, r Row) (int64, error) {
+	if _, err := boom(ctx, r.Boom); err != nil {
+		return 0, err
+	}
+	return r.Rank, nil
+}
+
+func rowName(ctx context.Context, r Row) (string, error) {
+	if _, err := boom(ctx, r.Boom); err != nil {
+		return "", err
+	}
+	return r.Name, nil
+}
+
 // BuildSchema15 builds the C15 test schema around live.
 func BuildSchema15(live *Live) *graphql.Schema {
 	s := schemabuilder.NewSchema()
@@ -136,7 +161,68 @@ func BuildSchema15(live *Live) *graphql.Schema {
 	})
 	q.FieldFunc("eboom", func(ctx context.Context, args BoomArgs) (int64, error) { return boom(ctx, args.Mode) }, schemabuilder.Expensive)
 
+	// user code runs in more places than field resolvers: the paginated resolver itself, and its sort and
+	// filter fields in plain, Expensive (errgroup goroutines) and batch form
+	s.Object("Row", Row{}).Key("id")
+	q.FieldFunc("rows", func(ctx context.Context, args RowsArgs) ([]Row, error) {
+		mode := ""
+		if args.Mode != nil {
+			mode = *args.Mode
+		}
+		rows := []Row{{Id: 1, Rank: 3, Name: "ann"}, {Id: 2, Rank: 1, Name: "bob"}, {Id: 3, Rank: 2, Name: "cy"}}
+		if strings.HasPrefix(mode, "self-") {
+			if _, err := boom(ctx, strings.TrimPrefix(mode, "self-")); err != nil {
+				return nil, err
+			}
+		} else {
+			rows[1].Boom = mode
+		}
+		return rows, nil
+	}, schemabuilder.Paginated,
+		schemabuilder.SortField("rank", rowRank),
+		schemabuilder.SortField("erank", rowRank, schemabuilder.Expensive),
+		schemabuilder.BatchSortField("brank", func(ctx context.Context, in map[batch.Index]Row) (map[batch.Index]int64, error) {
+			out := map[batch.Index]int64{}
+			for i, r := range in {
+				v, err := rowRank(ctx, r)
+				if err != nil {
+					return nil, err
+				}
+				out[i] = v
+			}
+			return out, nil
+		}),
+		schemabuilder.FilterField("fname", rowName),
+		schemabuilder.FilterField("efname", rowName, schemabuilder.Expensive),
+		schemabuilder.BatchFilterField("bfname", func(ctx context.Context, in map[batch.Index]Row) (map[batch.Index]string, error) {
+			out := map[batch.Index]string{}
+			for i, r := range in {
+				v, err := rowName(ctx, r)
+				if err != nil {
+					return nil, err
+				}
+				out[i] = v
+			}
+			return out, nil
+		}),
+	)
+
 	o := s.Object("Obj", Obj{})
+	var fbFlip int64
+	o.BatchFieldFuncWithFallback("fboom", func(ctx context.Context, in map[batch.Index]*Obj, args BoomArgs) (map[batch.Index]*int64, error) {
+		v, err := boom(ctx, args.Mode)
+		if err != nil {
+			return nil, err
+		}
+		out := map[batch.Index]*int64{}
+		for i := range in {
+			out[i] = &v
+		}
+		return out, nil
+	}, func(ctx context.Context, o *Obj, args BoomArgs) (*int64, error) {
+		v, err := boom(ctx, args.Mode)
+		return &v, err
+	}, func(context.Context) bool { return atomic.AddInt64(&fbFlip, 1)%2 == 0 })
 	o.FieldFunc("child", func(o *Obj) *Obj {
 		if o.Depth >= 3 {
 			return nil
